@@ -41,7 +41,8 @@ pub fn lit_programs(tier: &str) -> (Vec<Program>, String) {
         v.extend(fam::lit(2, 3, 1, 3, false, false));
         v.extend(fam::lit_spawn_stagger(false));
         v.extend(fam::lit_coh3(false));
-        level = "LIT: coherence through a third thread (A: x-op, publish; B: subscribe, 1-2 x-ops; C: 1-2 x-ops); staggered spawns (main accesses/fences between two spawns); 2 threads, <=3 events on 1 location, <=4 events on 2 locations; 3 threads x 1 event on 1-2 locations (reduced orderings) + sentinels".to_string();
+        v.extend(fam::lit_fence_multi(false));
+        level = "LIT: fence after two loads of flags published by two writers; coherence through a third thread (A: x-op, publish; B: subscribe, 1-2 x-ops; C: 1-2 x-ops); staggered spawns (main accesses/fences between two spawns); 2 threads, <=3 events on 1 location, <=4 events on 2 locations; 3 threads x 1 event on 1-2 locations (reduced orderings) + sentinels".to_string();
     } else {
         v.extend(fam::lit(1, 2, 3, 4, true, true));
         v.extend(fam::lit(2, 2, 2, 4, true, true));
@@ -50,7 +51,8 @@ pub fn lit_programs(tier: &str) -> (Vec<Program>, String) {
         v.extend(fam::lit(1, 2, 3, 5, false, false));
         v.extend(fam::lit_spawn_stagger(true));
         v.extend(fam::lit_coh3(true));
-        level = "LIT: coherence through a third thread (5 publication idioms, two hops); staggered spawns; 2 threads <=4 events (all orderings, CAS), <=5 events on one location (reduced orderings), 3 threads <=4 events (reduced orderings) + sentinels".to_string();
+        v.extend(fam::lit_fence_multi(true));
+        level = "LIT: fence after two loads of flags published by two writers (all fence kinds); coherence through a third thread (5 publication idioms, two hops); staggered spawns; 2 threads <=4 events (all orderings, CAS), <=5 events on one location (reduced orderings), 3 threads <=4 events (reduced orderings) + sentinels".to_string();
     }
     v.extend(fam::lit_sentinels());
     (v, level)
@@ -660,5 +662,12 @@ pub fn chan_programs(tier: &str) -> (Vec<Program>, String) {
         level = "CHAN: 1-3 senders x <=3 sends, receiver <=4 recv/try_recv (+drop); messages with a loom RMW in Drop".to_string();
     }
     v.extend(fam::chan_payload_family());
+    if tier == "quick" {
+        v.extend(fam::chan2_family(3, false));
+    } else {
+        v.extend(fam::chan2_family(4, false));
+        v.extend(fam::chan2_family(3, true));
+    }
+    let level = level + "; CHAN2: two channels, request/response between two threads, every pair of sequences of <= 3 (4) ops";
     (v, level)
 }
